@@ -35,6 +35,7 @@ type Obligation struct {
 	id      int
 	smtPath string
 	CrossSolver string
+	rawSMT      string
 }
 
 type envEntry struct {
